@@ -287,7 +287,9 @@ static void tableCheck(void) {
 static struct { int fd; char* dirpath; int open; } tw[TW_MAX];
 static U32 twN;
 
+static int twRaw;                     /* host errno behind the last twin error (printed as ` !errno:<n>`) */
 static U32 twErrno(int e) {           /* WASI witx numbering, written independently of wasi.c */
+    twRaw = e;
     switch (e) {
     case 0: return 0; case E2BIG: return 1; case EACCES: return 2; case EAGAIN: return 6; case EBADF: return 8;
     case EBUSY: return 10; case ECHILD: return 12; case EDOM: return 18; case EEXIST: return 20; case EFAULT: return 21;
@@ -422,6 +424,7 @@ static void runHistory(char** lines, int n, int twin, int outfd) {
     char root[64];
     int i, fd;
     int tablecheck = getenv("WASIOPS_TABLECHECK") != NULL;
+    alarm(30);          /* a history must never block (FIFOs/pipes are opened non-blocking) */
     snprintf(root, sizeof root, "h-%d", (int)getpid());
     if (mkdir(root, 0755) != 0 || chdir(root) != 0) _exit(97);
     if (mkdir("sb", 0755) != 0) _exit(97);
@@ -457,6 +460,24 @@ static void runHistory(char** lines, int n, int twin, int outfd) {
             else { unhex(w[2], guest.data + addr, len); memcpy(shadow + addr, guest.data + addr, len); fprintf(out, "ok\n"); }
         } else if (!strcmp(w[0], "mkfile") && nw == 3) cmdMkfile(w[1], w[2]);
         else if (!strcmp(w[0], "mkdir") && nw == 2) fprintf(out, mkdir(w[1], 0755) == 0 ? "ok\n" : "fail\n");
+        else if (!strcmp(w[0], "mkfifo") && nw == 2) {
+            /* a FIFO both ends of which stay open (keep-alive descriptor ≥ 220), so that open never blocks */
+            int k = -1;
+            if (mkfifo(w[1], 0644) == 0) { int t = open(w[1], O_RDWR | O_NONBLOCK); if (t >= 0) { k = fcntl(t, F_DUPFD, 220); close(t); } }
+            fprintf(out, k >= 0 ? "ok\n" : "fail\n");
+        } else if (!strcmp(w[0], "pipestdio") && nw == 1) {
+            /* descriptors 0-2 become non-blocking pipe ends: 0 reads "pipedata", 1 and 2 write; other ends stay open */
+            int a[2], b[2], c[2], okp = pipe(a) == 0 && pipe(b) == 0 && pipe(c) == 0;
+            if (okp) {
+                int k;
+                okp = write(a[1], "pipedata", 8) == 8;
+                fcntl(a[1], F_DUPFD, 230); fcntl(b[0], F_DUPFD, 230); fcntl(c[0], F_DUPFD, 230);
+                dup2(a[0], 0); dup2(b[1], 1); dup2(c[1], 2);
+                close(a[0]); close(a[1]); close(b[0]); close(b[1]); close(c[0]); close(c[1]);
+                for (k = 0; k < 3; k++) fcntl(k, F_SETFL, fcntl(k, F_GETFL) | O_NONBLOCK);
+            }
+            fprintf(out, okp ? "ok\n" : "fail\n");
+        }
         else if (!strcmp(w[0], "cat") && nw == 2) cmdCat(w[1]);
         else if (!strcmp(w[0], "ls") && nw == 2) cmdLs(w[1]);
         else if ((!strcmp(w[0], "p1") || !strcmp(w[0], "un")) && nw >= 2) {
@@ -464,10 +485,12 @@ static void runHistory(char** lines, int n, int twin, int outfd) {
             nA = nw - 2;
             for (k = 0; k < nA && k < 12; k++) A[k] = strtoull(w[2 + k], NULL, 10);
             fflush(out);
+            twRaw = 0;
             ok = twin ? twinCall(un, w[1], &res) : realCall(un, w[1], &res);
             if (!ok) { if (twin) fprintf(out, "r skip"); else fprintf(out, "err unknown-call"); }
             else fprintf(out, "r %u", res);
             printDiff();
+            if (twin && ok && res != 0 && twRaw != 0) fprintf(out, " !errno:%d", twRaw);
             if (!twin && tablecheck) tableCheck();
             fprintf(out, "\n");
         } else fprintf(out, "err unknown-command\n");
